@@ -777,8 +777,21 @@ func executePlannedSelection(eCtx *executionContext, sp *selectionPlan, source i
 // coercion.
 func resolvePlannedField(eCtx *executionContext, parentType *Object, source interface{}, fp *fieldPlan, path *ResponsePath) (result interface{}, ok bool) {
 	var returnType Output
+	var resolveFieldFinishFn resolveFieldFinishFuncHandler
 	defer func() {
 		if r := recover(); r != nil {
+			if resolveFieldFinishFn != nil {
+				// the resolver panicked: the per-field finish hooks have not run yet
+				finishFn := resolveFieldFinishFn
+				resolveFieldFinishFn = nil
+				panicErr, isErr := r.(error)
+				if !isErr {
+					panicErr = fmt.Errorf("%v", r)
+				}
+				if extErrs := finishFn(nil, panicErr); len(extErrs) != 0 {
+					eCtx.Errors = append(eCtx.Errors, extErrs...)
+				}
+			}
 			handleFieldError(r, FieldASTsToNodeASTs(fp.fieldASTs), path, returnType, eCtx)
 			result = nil
 			ok = true
@@ -825,7 +838,6 @@ func resolvePlannedField(eCtx *executionContext, parentType *Object, source inte
 	// Extensions allocate a per-field map + closure even when none are
 	// registered. Skip entirely on the common no-extensions schema —
 	// saves ~22% of allocs per resolved field on hot paths.
-	var resolveFieldFinishFn resolveFieldFinishFuncHandler
 	if len(eCtx.Schema.extensions) > 0 {
 		var extErrs []gqlerrors.FormattedError
 		extErrs, resolveFieldFinishFn = handleExtensionsResolveFieldDidStart(eCtx.Schema.extensions, eCtx, &info)
@@ -843,7 +855,9 @@ func resolvePlannedField(eCtx *executionContext, parentType *Object, source inte
 	})
 
 	if resolveFieldFinishFn != nil {
-		extErrs := resolveFieldFinishFn(result, resolveFnError)
+		finishFn := resolveFieldFinishFn
+		resolveFieldFinishFn = nil
+		extErrs := finishFn(result, resolveFnError)
 		if len(extErrs) != 0 {
 			eCtx.Errors = append(eCtx.Errors, extErrs...)
 		}
